@@ -83,6 +83,23 @@ pub fn replay_file(path: &std::path::Path) -> i32 {
                 1
             }
         },
+        k if k.len() > 3 && k.starts_with('c') => {
+            // kinds without a dedicated replayer (sub-second checks): re-run the check and
+            // report whether the recorded violation (same signature) occurs again
+            let prop = v["property"].as_str().unwrap_or("").to_string();
+            let sig = v["signature"].as_str().unwrap_or("").to_string();
+            std::env::set_var("TCMC_DRY", "1");
+            std::env::set_var("TCMC_REPLAY_SIG", &sig);
+            let opts = crate::util::Opts { tier: crate::util::Tier::Quick, seed: 0, replay: None, budget_s: 600.0, extra: vec![] };
+            println!("replay by re-running {prop} (quick) and looking for [{sig}]");
+            let code = crate::dispatch(&prop, &opts);
+            if code == 1 {
+                println!("VIOLATION property={prop} replay={}", path.display());
+            } else if code == 0 {
+                println!("replay: no violation");
+            }
+            code
+        }
         k => {
             eprintln!("unknown replay kind {k}");
             2
